@@ -91,6 +91,30 @@ def _replay(beh):
         # ... and switch torch's default dtype between construction and the copy / conversion
         if d["switch"] == 1:
             torch.set_default_dtype(torch.float64 if default == torch.float32 else torch.float32)
+        # every floating tensor the constructor created or took over has the dtype the operator was built with - never torch's default by accident
+        for i, a in enumerate(_tensors(op)):
+            if a.is_floating_point() and a.dtype != src:
+                fails.append(("constructed-dtype", "floating tensor #%d of the freshly built operator has dtype %s, the operator was built in %s (torch default %s)"
+                              % (i, a.dtype, src, default)))
+        # requires_grad reaches exactly the floating tensors it was set on: build again with ONE trainable leaf (the first, then the last floating
+        # leaf) and count the trainable tensors of the operator and of its copy / conversion
+        if d["action"] in ("clone", "to_dtype", "double", "float", "rebuild", "evaluate_kernel", "type"):
+            lm = {}
+            bind.build(beh["term"], src, leafmap=lm)
+            fkeys = [k for k, t in lm.items() if t.is_floating_point()]
+            for key in ([fkeys[0], fkeys[-1]] if len(fkeys) >= 2 else []):
+                try:
+                    opg = bind.build(beh["term"], src, requires_grad=frozenset([key]))
+                    cnt = sum(1 for a in _tensors(opg) if a.is_floating_point() and a.requires_grad)
+                    if cnt != 1:
+                        fails.append(("requires_grad-subset", "one trainable leaf %s, but %d floating tensors of the built operator require grad" % (key, cnt)))
+                        continue
+                    resg = _apply(opg, d["action"], tgt)
+                    cnt2 = sum(1 for a in _tensors(resg) if a.is_floating_point() and a.requires_grad)
+                    if cnt2 != 1 and d["action"] != "evaluate_kernel":
+                        fails.append(("requires_grad-subset", "one trainable leaf %s, but %d floating tensors require grad after %s" % (key, cnt2, d["action"])))
+                except Exception as e:  # noqa
+                    fails.append(("requires_grad-subset", "raised " + exc_summary(e)))
         action = d["action"]
         if action == "outputs":
             X = torch.ones(op.shape[-1], 2, dtype=src)
